@@ -64,9 +64,9 @@ func (i Identity) UserSigner() user.Signer { return user.NewAutoIDSigner(i.Priv)
 
 // Identities of the universe (indices are stable; specs refer to them).
 const (
-	IDOwner = iota // owner of every container
-	IDOther        // a user with the Others role
-	IDOther2       // another stranger (foreign issuer, swapped keys)
+	IDOwner  = iota // owner of every container
+	IDOther         // a user with the Others role
+	IDOther2        // another stranger (foreign issuer, swapped keys)
 	numRequesters
 )
 
